@@ -13,6 +13,7 @@
   widths, integer-bit settings and rational inputs.  Only property theorems here.
 -/
 import QKV.Lemmas.FixedQ
+import QKV.Lemmas.FixedQObj
 import QKV.Model.QTypes
 namespace QKV.Props.C01
 open QKV
@@ -730,6 +731,207 @@ theorem C01_reluSig_plain_on_lattice (t : Tie) (c : ReluCfg) (h : c.slopeLog = n
         omega
       · rw [← hm]; field_simp
 
+/-! ## Strengthening round 2: histories on ONE object (`QKV.Model.FixedQObj`)
+
+  A quantizer object is called, its reporters are read, its attributes are assigned,
+  `_set_trainable_parameter()` is invoked, it is handed to layers — in any order, any number of times.
+  The property must hold for the k-th use exactly as for a fresh object: every observation is answered
+  from the configuration the object has NOW.  In the model this refinement is by construction; the
+  theorems below state what it buys (and the harness ties the real objects to the machine step by step). -/
+
+/-- observations leave no trace: the state after a history is the fold of its EVENTS -/
+theorem C01_hist_final_events {S E Q A : Type} (M : ObjSpec S E Q A) (s : S) (h : List (HStep E Q)) :
+    M.final s h = (ObjSpec.events h).foldl M.apply s := M.final_eq_foldl s h
+
+/-- the k-th use: a question asked after ANY history is answered as the function of the state reached,
+    and the earlier answers are unaffected -/
+theorem C01_hist_ask_after {S E Q A : Type} (M : ObjSpec S E Q A) (s : S) (h : List (HStep E Q)) (q : Q) :
+    M.run s (h ++ [.ask q]) = M.run s h ++ [M.answer (M.final s h) q] := M.run_snoc_ask s h q
+
+/-- two histories with the same events — whatever calls and reporter reads are interleaved, e.g. none at
+    all — leave the object in the same state: having been used leaves no trace (this is what a cache
+    filled at the first use breaks) -/
+theorem C01_hist_asks_irrelevant {S E Q A : Type} (M : ObjSpec S E Q A) (s : S) (h h' : List (HStep E Q))
+    (e : ObjSpec.events h = ObjSpec.events h') (q : Q) :
+    M.answer (M.final s h) q = M.answer (M.final s h') q := by
+  rw [M.final_of_events_eq s e]
+
+/-! ### quantized_linear -/
+
+/-- `bits`, `integer`, `keep_negative` never change -/
+theorem C01_hist_linear_readonly (t : Tie) (s : LinSt) (h : List (HStep LinEv Ask)) :
+    ((linSpec t).final s h).cfg.bits = s.cfg.bits ∧ ((linSpec t).final s h).cfg.integer = s.cfg.integer ∧
+    ((linSpec t).final s h).cfg.keepNeg = s.cfg.keepNeg := by
+  refine (linSpec t).final_invariant
+    (fun f => f.cfg.bits = s.cfg.bits ∧ f.cfg.integer = s.cfg.integer ∧ f.cfg.keepNeg = s.cfg.keepNeg)
+    ?_ s ⟨rfl, rfl, rfl⟩ h
+  intro f e ⟨h1, h2, h3⟩
+  obtain ⟨a1, a2, a3⟩ := f.apply_readonly e
+  exact ⟨a1.trans h1, a2.trans h2, a3.trans h3⟩
+
+/-- whatever the history (attribute assignments, stale or data-dependent scales included), a call emits
+    a code of the format the attributes describe NOW — `lo` follows the current `symmetric` — times the
+    scale in force -/
+theorem C01_hist_linear_on_lattice (t : Tie) (s0 : LinSt) (h : List (HStep LinEv Ask)) (x p : ℚ)
+    (hsf : ((linSpec t).final s0 h).cfg.signFn = false) :
+    ∃ k : ℤ, ((linSpec t).final s0 h).cfg.lo ≤ k ∧ k ≤ ((linSpec t).final s0 h).cfg.hi ∧
+      (linSpec t).answer ((linSpec t).final s0 h) (.call x p) =
+        .val ((k : ℚ) * ((linSpec t).final s0 h).effective.qs) := by
+  set s := (linSpec t).final s0 h
+  obtain ⟨k, h1, h2, hk⟩ := C01_linear_on_lattice t s.effective (by rw [LinSt.effective_signFn]; exact hsf) x
+  exact ⟨k, h1, h2, by show Ans.val _ = _; rw [hk]⟩
+
+/-- `min()` / `max()` of the object as it is NOW enclose what it emits NOW, and `range()` lists exactly
+    that (positive scale in force) -/
+theorem C01_hist_linear_reporters (t : Tie) (s0 : LinSt) (h : List (HStep LinEv Ask)) (x p : ℚ)
+    (hsf : ((linSpec t).final s0 h).cfg.signFn = false) (hq : 0 < ((linSpec t).final s0 h).effective.qs) :
+    ∃ mn mx y : ℚ, ∃ l : List ℚ,
+      (linSpec t).answer ((linSpec t).final s0 h) .min = .val mn ∧
+      (linSpec t).answer ((linSpec t).final s0 h) .max = .val mx ∧
+      (linSpec t).answer ((linSpec t).final s0 h) .range = .list l ∧
+      (linSpec t).answer ((linSpec t).final s0 h) (.call x p) = .val y ∧ mn ≤ y ∧ y ≤ mx ∧ y ∈ l ∧
+      ∀ z ∈ l, ∃ x', (linSpec t).answer ((linSpec t).final s0 h) (.call x' p) = .val z := by
+  set s := (linSpec t).final s0 h
+  have hs' : s.effective.signFn = false := by rw [LinSt.effective_signFn]; exact hsf
+  obtain ⟨h1, h2⟩ := C01_linear_minmax t s.effective hs' hq x
+  refine ⟨_, _, _, _, rfl, rfl, rfl, rfl, h1, h2, ?_, ?_⟩
+  · exact (C01_linear_range_exact t s.effective hs' hq _).mpr ⟨x, rfl⟩
+  · intro z hz
+    obtain ⟨x', hx'⟩ := (C01_linear_range_exact t s.effective hs' hq z).mp hz
+    exact ⟨x', by show Ans.val _ = _; rw [hx']⟩
+
+/-- as long as no constant is assigned to `alpha`, the object behaves exactly as a FRESH quantizer built
+    from its current attributes (the twin of the harness) -/
+theorem C01_hist_linear_fresh (t : Tie) (c : LinCfg) (auto : Bool) (h : List (HStep LinEv Ask))
+    (hk : ∀ e ∈ ObjSpec.events h, e.keepsScale)
+    (hna : ((linSpec t).final (LinSt.construct c auto) h).auto = false) (q : Ask) :
+    (linSpec t).answer ((linSpec t).final (LinSt.construct c auto) h) q =
+      (linSpec t).answer (LinSt.construct ((linSpec t).final (LinSt.construct c auto) h).cfg false) q := by
+  have hc : ((linSpec t).final (LinSt.construct c auto) h).Consistent :=
+    (linSpec t).final_invariant_on LinSt.Consistent LinEv.keepsScale
+      (fun s e he hs => s.consistent_apply e he hs) _ (LinSt.consistent_construct c auto) h hk
+  set s := (linSpec t).final (LinSt.construct c auto) h
+  have he : s.effective = (LinSt.construct s.cfg false).effective := by
+    unfold LinSt.effective LinSt.construct
+    simp only [Bool.false_eq_true, if_false]
+    rw [hc hna]
+  cases q <;> simp only [linSpec, LinSt.answer] <;> rw [he]
+
+/-- `_set_trainable_parameter()` on an `alpha=None` object — whatever was asked of it before, and
+    whichever scale the data then dictates — leaves the SYMMETRIC format: no code below `-(2^ub - 1)` -/
+theorem C01_hist_linear_trainable_symmetric (t : Tie) (c : LinCfg) (ha : c.alpha = none) (hkn : c.keepNeg = true)
+    (hb : c.signFn = false) (pre : List (HStep LinEv Ask)) (hpre : ObjSpec.events pre = []) (a x p : ℚ) :
+    ∃ k : ℤ, -(twoPow c.ub - 1) ≤ k ∧ k ≤ twoPow c.ub - 1 ∧
+      (linSpec t).answer ((linSpec t).final (LinSt.construct c false) (pre ++ [.ev .trainable, .ev (.rescale a)]))
+        (.call x p) = .val ((k : ℚ) * (a * pow2 (c.integer - c.ub))) := by
+  have hfin : (linSpec t).final (LinSt.construct c false) (pre ++ [.ev .trainable, .ev (.rescale a)]) =
+      { cfg := { c with symmetric := true }, auto := true, stored := some a } := by
+    rw [ObjSpec.final_append, ObjSpec.final_eq_foldl _ _ pre, hpre]
+    simp [ObjSpec.final, linSpec, LinSt.apply, LinSt.construct, ha]
+  rw [hfin]
+  have hsf : ({ cfg := { c with symmetric := true }, auto := true, stored := some a } : LinSt).effective.signFn
+      = false := hb
+  obtain ⟨k, h1, h2, hk⟩ := C01_linear_on_lattice t
+    ({ cfg := { c with symmetric := true }, auto := true, stored := some a } : LinSt).effective hsf x
+  refine ⟨k, ?_, ?_, ?_⟩
+  · have : ({ cfg := { c with symmetric := true }, auto := true, stored := some a } : LinSt).effective.lo
+        = -(twoPow c.ub - 1) := by
+      have e : ({ cfg := { c with symmetric := true }, auto := true, stored := some a } : LinSt).effective.lo
+          = (if c.keepNeg then -twoPow c.ub + 1 else 0) := rfl
+      rw [e, hkn]; simp only [if_true]; ring
+    rw [this] at h1; exact h1
+  · exact h2
+  · show Ans.val _ = _
+    rw [hk]; rfl
+
+/-- COUNTEREXAMPLE (known finding C01-linear-alpha-reassign, as a history): call, assign `alpha = 2.0`,
+    call again — the second call still uses the scale stored by `__init__` -/
+theorem C01_hist_linear_alpha_stale_counterexample :
+    let c : LinCfg := { bits := 4, integer := 0, symmetric := true, keepNeg := true, alpha := none }
+    (linSpec .even).run (LinSt.construct c false)
+        [.ask (.call (7/8) 0), .ev (.setAlpha (some 2)), .ask (.call (7/8) 0), .ask .max] =
+      [.val (7/8), .val (7/8), .val (7/8)] ∧
+    ((linSpec .even).final (LinSt.construct c false) [.ev (.setAlpha (some 2))]).cfg.qs = 1/4 := by
+  refine ⟨by decide +kernel, by decide +kernel⟩
+
+/-! ### quantized_bits -/
+
+/-- whatever the history, with a constant (or no) scale a call emits a code of the format the
+    attributes describe NOW (every attribute of `quantized_bits` is live) -/
+theorem C01_hist_bits_on_lattice (t : Tie) (s0 : BitsSt) (h : List (HStep BitsEv Ask)) (x p : ℚ)
+    (hna : ((bitsSpec t).final s0 h).auto = false) (hub : 0 < ((bitsSpec t).final s0 h).cfg.ub) :
+    ∃ k : ℤ, ((bitsSpec t).final s0 h).cfg.lo ≤ k ∧ k ≤ ((bitsSpec t).final s0 h).cfg.hi ∧
+      (bitsSpec t).answer ((bitsSpec t).final s0 h) (.call x p) =
+        .val (((bitsSpec t).final s0 h).cfg.gain * (k : ℚ) * ((bitsSpec t).final s0 h).cfg.step) := by
+  set s := (bitsSpec t).final s0 h
+  obtain ⟨k, h1, h2, hk⟩ := C01_bits_on_lattice t s.cfg hub x
+  refine ⟨k, h1, h2, ?_⟩
+  simp only [bitsSpec, BitsSt.answer, hna, Bool.false_eq_true, if_false]
+  rw [hk]
+
+/-- under a data-dependent scale `s` (after `_set_trainable_parameter()`) every output is a code of the
+    symmetric format `-(2^(bits-1) - 1) … 2^(bits-1) - 1` of size `s · 2^integer` -/
+theorem C01_bitsAuto_on_lattice (c : BitsCfg) (s x : ℚ) (hs : 0 < s) :
+    ∃ k : ℤ, -(tp (c.bits - 1) - 1) ≤ k ∧ k ≤ tp (c.bits - 1) - 1 ∧
+      qbitsAuto c s x = (k : ℚ) * (s * pow2 c.integer) := qbitsAuto_code c s x hs
+
+/-- `_set_trainable_parameter()` on an `alpha=None` `quantized_bits` — whatever was asked before — turns
+    it into the symmetric auto-scale quantizer; any other alpha is left alone -/
+theorem C01_hist_bits_trainable (t : Tie) (c : BitsCfg) (pre : List (HStep BitsEv Ask))
+    (hpre : ObjSpec.events pre = []) :
+    (bitsSpec t).final (BitsSt.construct c) (pre ++ [.ev .trainable]) =
+      (if c.alpha.isNone then { cfg := { c with symmetric := true }, auto := true, scale := 1 }
+       else BitsSt.construct c) := by
+  rw [ObjSpec.final_append, ObjSpec.final_eq_foldl _ _ pre, hpre]
+  cases ha : c.alpha <;> simp [ObjSpec.final, bitsSpec, BitsSt.apply, BitsSt.construct, ha]
+
+/-! ### quantized_relu, quantized_tanh, quantized_sigmoid -/
+
+/-- whatever the history, a plain (`use_sigmoid = 0`) call does not exceed the largest code of the
+    format the attributes describe NOW -/
+theorem C01_hist_relu_le_top (t : Tie) (s0 : ReluSt) (h : List (HStep ReluEv Ask)) (x p : ℚ)
+    (hus : ((reluSpec t).final s0 h).useSigmoid = false)
+    (hs : ∀ k : ℕ, ((reluSpec t).final s0 h).cfg.slopeLog = some k → (k : ℤ) ≤ ((reluSpec t).final s0 h).cfg.nsb) :
+    ∃ y : ℚ, (reluSpec t).answer ((reluSpec t).final s0 h) (.call x p) = .val y ∧
+      y ≤ (((reluSpec t).final s0 h).cfg.hi : ℚ) * ((reluSpec t).final s0 h).cfg.step := by
+  set s := (reluSpec t).final s0 h
+  refine ⟨qreluU t s.cfg x, ?_, C01_reluU_le_top t s.cfg hs x⟩
+  simp only [reluSpec, ReluSt.answer, hus, Bool.false_eq_true, if_false]
+
+/-- … and with the default options it is a code `0 … 2^bits − 1` of the CURRENT step -/
+theorem C01_hist_relu_plain_on_lattice (t : Tie) (s0 : ReluSt) (h : List (HStep ReluEv Ask)) (x p : ℚ)
+    (hus : ((reluSpec t).final s0 h).useSigmoid = false)
+    (hsl : ((reluSpec t).final s0 h).cfg.slopeLog = none)
+    (hc : ((reluSpec t).final s0 h).cfg.clamp = none) :
+    ∃ k : ℤ, 0 ≤ k ∧ k ≤ ((reluSpec t).final s0 h).cfg.hi ∧
+      (reluSpec t).answer ((reluSpec t).final s0 h) (.call x p) =
+        .val ((k : ℚ) * ((reluSpec t).final s0 h).cfg.step) := by
+  set s := (reluSpec t).final s0 h
+  obtain ⟨k, h1, h2, hk⟩ := C01_relu_plain_on_lattice t s.cfg hsl x
+  refine ⟨k, h1, h2, ?_⟩
+  simp only [reluSpec, ReluSt.answer, hus, Bool.false_eq_true, if_false]
+  rw [qreluU_of_clamp_none t hc, hk]
+
+/-- tanh / sigmoid: a code of the format of the CURRENT `bits` / `symmetric`, for every surrogate value -/
+theorem C01_hist_tanh_on_lattice (t : Tie) (s0 : SurSt) (h : List (HStep SurEv Ask)) (x p : ℚ) :
+    ∃ k : ℤ, - tp (((tanhSpec t).final s0 h).bits - 1) + (if ((tanhSpec t).final s0 h).symmetric then 1 else 0) ≤ k ∧
+      k ≤ tp (((tanhSpec t).final s0 h).bits - 1) - 1 ∧
+      (tanhSpec t).answer ((tanhSpec t).final s0 h) (.call x p) =
+        .val ((k : ℚ) / (tp (((tanhSpec t).final s0 h).bits - 1) : ℚ)) := by
+  set s := (tanhSpec t).final s0 h
+  obtain ⟨k, h1, h2, hk⟩ := C01_tanh_on_lattice t s.bits s.symmetric p
+  exact ⟨k, h1, h2, by show Ans.val _ = _; rw [hk]⟩
+
+theorem C01_hist_sigmoid_on_lattice (t : Tie) (s0 : SurSt) (h : List (HStep SurEv Ask)) (x p : ℚ)
+    (hb : ((sigmoidSpec t).final s0 h).symmetric = true → 1 ≤ ((sigmoidSpec t).final s0 h).bits) :
+    ∃ k : ℤ, (if ((sigmoidSpec t).final s0 h).symmetric then 1 else 0) ≤ k ∧
+      k ≤ tp ((sigmoidSpec t).final s0 h).bits - 1 ∧
+      (sigmoidSpec t).answer ((sigmoidSpec t).final s0 h) (.call x p) =
+        .val ((k : ℚ) / (tp ((sigmoidSpec t).final s0 h).bits : ℚ)) := by
+  set s := (sigmoidSpec t).final s0 h
+  obtain ⟨k, h1, h2, hk⟩ := C01_sigmoid_on_lattice t s.bits s.symmetric p hb
+  exact ⟨k, h1, h2, by show Ans.val _ = _; rw [hk]⟩
+
 /-! ## non-vacuity -/
 
 example : (0 : ℤ) < ({ bits := 8, integer := 0, symmetric := false, keepNeg := true,
@@ -743,5 +945,18 @@ example : qreluU .even { bits := 4, integer := 1, slopeLog := none, upper := som
     = 15/8 := by decide +kernel
 example : qlinearMinPC { bits := 2, integer := 0, symmetric := false, keepNeg := true, alpha := none }
     [1/2, 1, 2] = [-1/2, -1, -2] := by decide +kernel
+
+-- seed C01-5 in the model: call, flip `symmetric`, call at the negative edge: the CURRENT format's end code
+example : (linSpec .even).run
+    (LinSt.construct { bits := 4, integer := 0, symmetric := false, keepNeg := true, alpha := none } false)
+    [.ask (.call (-5) 0), .ev (.setSymmetric true), .ask (.call (-5) 0), .ask .min] =
+    [.val (-1), .val (-7/8), .val (-7/8)] := by decide +kernel
+-- seed C02-5 in the model: min() read, handed to a layer as kernel quantizer, auto scale 1/8
+example : (linSpec .even).run
+    (LinSt.construct { bits := 4, integer := 0, symmetric := false, keepNeg := true, alpha := none } false)
+    [.ask .min, .ev .trainable, .ev (.rescale 1), .ask (.call (-1) 0)] = [.val (-1), .val (-7/8)] := by
+  decide +kernel
+example : qbitsAuto { bits := 4, integer := 0, symmetric := true, keepNeg := true, alpha := none } (1/8) (-1)
+    = -7/8 := by decide +kernel
 
 end QKV.Props.C01
